@@ -363,3 +363,86 @@ def gen_g2m_abs(ih_cases, rng):
                 e[2].pop("order", None)
         cases.append(dict(kind="g2m-abs", G=G, ibo=rng.random() < 0.3, uhc=rng.random() < 0.7))
     return cases
+
+
+# ------------------------------------------------------------------ the premise of theorems 37 / 41 on real readings
+# case = {"kind": "rw-premise", "a": side, "b": the same side re-rooted / with its fragments shuffled (every atom mapped, maps unique)}
+# model: rewrittenb sl (reading of a) (reading of b), sl = index renumbering derived from the atom maps (sound for `rewritten`:
+# proof/C01_RewriteCheck.v).  implementation: [the same test in Python on the RDKit readings, and - when it holds - whether
+# smiles_to_graph gives the same label and bond maps for both strings (the conclusion of theorem 37)]
+
+def _maps_ok(rm):
+    ms = [a[4] for a in rm["atoms"]]
+    return all(ms) and len(set(ms)) == len(ms)
+
+
+def _sl(ra, rb):
+    pos = {a[4]: i for i, a in enumerate(rb["atoms"])}
+    return [pos.get(a[4], len(rb["atoms"])) for a in ra["atoms"]]
+
+
+def _premise_py(ra, rb, sl):
+    n = len(ra["atoms"])
+    if len(rb["atoms"]) != n or len(set(sl)) != n or any(s >= n for s in sl):
+        return False
+    if any(ra["atoms"][i] != rb["atoms"][sl[i]] for i in range(n)):
+        return False
+    bb = {(i, j, o) for i, j, o in rb["bonds"]}
+    for i, j, o in ra["bonds"]:
+        if (sl[i], sl[j], o) not in bb and (sl[j], sl[i], o) not in bb:
+            return False
+    img = {(sl[i], sl[j], o) for i, j, o in ra["bonds"]} | {(sl[j], sl[i], o) for i, j, o in ra["bonds"]}
+    return all((i, j, o) in img for i, j, o in rb["bonds"])
+
+
+def obs_rw_premise(case):
+    import synkit.IO.chem_converter as cc
+    ma, mb = T.sanitized_mol(case["a"]), T.sanitized_mol(case["b"])
+    if ma is None or mb is None:
+        return ["unparsable"]
+    ra, rb = T.read_rmol(ma), T.read_rmol(mb)
+    prem = _premise_py(ra, rb, _sl(ra, rb))
+    ga, gb = cc.smiles_to_graph(case["a"], True, True, True), cc.smiles_to_graph(case["b"], True, True, True)
+    same = (ga is not None and gb is not None and {n: dict(d) for n, d in ga.nodes(data=True)} == {n: dict(d) for n, d in gb.nodes(data=True)}
+            and {frozenset(e[:2]): e[2] for e in ga.edges(data=True)} == {frozenset(e[:2]): e[2] for e in gb.edges(data=True)})
+    return [prem, prem and same]
+
+
+def coq_rw_premise(case):
+    ma, mb = T.sanitized_mol(case["a"]), T.sanitized_mol(case["b"])
+    if ma is None or mb is None:
+        return None
+    ra, rb = T.read_rmol(ma), T.read_rmol(mb)
+    if not (_maps_ok(ra) and _maps_ok(rb)):
+        return None
+    sl = "[%s]" % "; ".join("%d%%nat" % s for s in _sl(ra, rb))
+    return "(let b := rewrittenb %s %s %s in L [tbool b; tbool b])" % (sl, T.coq_rmol(ra), T.coq_rmol(rb))
+
+
+def gen_rw_premise(rsmis, rng, n):
+    from . import c01_rsmi as R
+    sides = []
+    for r in rsmis:
+        if r.count(">>") == 1:
+            sides += r.split(">>")
+    cases = []
+    rng.shuffle(sides)
+    for a in sides:
+        if len(cases) >= n:
+            break
+        try:
+            z = rng.random()
+            if z < 0.5:
+                b = R._reroot_side(a, rng)
+            elif z < 0.75:
+                fr = a.split(".")
+                rng.shuffle(fr)
+                b = ".".join(fr)
+            else:
+                fr = R._reroot_side(a, rng).split(".")
+                rng.shuffle(fr)
+                b = ".".join(fr)
+        except Exception:
+            continue
+        cases.append(dict(kind="rw-premise", a=a, b=b))
+    return cases
